@@ -1,10 +1,12 @@
 import TabulaModel.Lemmas.Package
+import TabulaModel.Lemmas.PackageSpine
 /-!
 # C18 — Multi-part documents are read in their declared order
 
 Theorems about `Model/Package.lean` (the readers as they are after the three
 `fix:` commits: PPTX slides from `sldIdLst`, `url.PathUnescape`, `path.Join` also
-for a root-level OPF). For every archive, parse table and declaration:
+for a root-level OPF; and after `fix: a resource listed several times in an EPUB spine is
+one chapter`, c53b79e). For every archive, parse table and declaration:
 
 * `parts_follow_declaration_*` — the presented part list is the declared list,
   in declared order, each entry resolved and looked up, unreadable entries dropped;
@@ -12,6 +14,21 @@ for a root-level OPF). For every archive, parse table and declaration:
 * `decoys_ignored_*` — members under names the declaration does not lead to change nothing;
 * `count_is_declared_readable_*` — the count is the number of declared readable parts;
 * `href_resolution` — percent-encoded hrefs resolve to `path.Join(base, p)`, `+` included.
+
+EPUB, what changed with c53b79e and why: `loadChapters` now skips a spine entry whose
+resolved href an earlier entry resolved to (300 itemrefs over one 2 MB chapter made
+`Text()` return 629 MB). The property text says "each part's text appears in its own page
+and only there", so this is the code the model follows. "The declared list" of an EPUB
+is therefore `spineFirsts base manifest spine` (`Lemmas/PackageSpine.lean`, defined from
+the declaration only): the spine entries with their positions, in spine order, later
+repetitions of an already listed resource removed. The EPUB forms of
+`parts_follow_declaration`, `count_is_declared_readable`, `text_stays_in_its_page` (and
+the front-door equations built on them) speak about that list; everything else is
+stated as before. New: `epub_no_resource_twice` (no resource is presented twice, for
+every package), `epub_unrepeated_spine_as_before` / `parts_follow_declaration_epub_valid`
+(a spine without repeated resources — every valid EPUB — is read exactly as before the
+fix, so the earlier statements hold verbatim there), `epub_chapter_count_bounded` (at
+most one chapter per distinct resolved href and per archive member).
 
 PPTX: when the presentation declares nothing usable (`pptxDeclared … = some []`: no
 `sldIdLst`, no relationship part, or no `r:id` with a target) the reader falls back to
@@ -87,20 +104,28 @@ theorem parts_follow_declaration_pptx (a : Archive) (x : Docs) (declared : List 
   rw [h]
   simp only [hne, if_false, pptxLoop, loopIdx_eq_filterMap, e]
 
+/-- the per-entry step of the loop is the specification of one entry -/
+theorem epubPart_eq_spec (a : Archive) (base : Str) (manifest : List (Str × Str)) :
+    (fun e : Str × Nat => epubPart (lookup a) base manifest e.2 e.1) = epubSpecPart a base manifest := by
+  funext e
+  unfold epubPart epubSpecPart
+  cases chapterPath base manifest e.1 with
+  | none => rfl
+  | some p => cases h' : lookup a p <;> simp [h']
+
+/-- EPUB (restated after c53b79e): the presented chapter list is the spine with later
+repetitions of an already listed resource removed (`spineFirsts`: first occurrences of
+resolved hrefs, in spine order, original positions), each entry resolved and looked up,
+unreadable entries dropped. Before the fix the list was `spine.zipIdx` itself; for a
+spine without repeated resources it still is (`parts_follow_declaration_epub_valid`). -/
 theorem parts_follow_declaration_epub (a : Archive) (x : Docs) (base : Str) (manifest : List (Str × Str))
     (spine : List Str) (h : epubDeclared (lookup a) x = some (base, manifest, spine)) :
     epubOpen a x =
-      (let parts := spine.zipIdx.filterMap (epubSpecPart a base manifest)
+      (let parts := (spineFirsts base manifest spine).filterMap (epubSpecPart a base manifest)
        if parts = [] then none else some parts) := by
-  have e : (fun e : Str × Nat => epubPart (lookup a) base manifest e.2 e.1) = epubSpecPart a base manifest := by
-    funext e
-    unfold epubPart epubSpecPart
-    cases chapterPath base manifest e.1 with
-    | none => rfl
-    | some p => cases h' : lookup a p <;> simp [h']
   unfold epubOpen epubOpenL
   rw [h]
-  simp only [epubLoop, loopIdx_eq_filterMap, e]
+  simp only [epubLoop_eq_spineFirsts, epubPart_eq_spec]
 
 /-- the slide paths really are the slide list in its own order: one path per `sldId`
 whose `r:id` has a target, nothing else, no reordering -/
@@ -266,17 +291,13 @@ theorem epubOpenL_congr (look look' : Str → Option Nat) (x : Docs)
     | some t =>
       obtain ⟨base, manifest, spine⟩ := t
       have hl : epubLoop look' base manifest 0 spine = epubLoop look base manifest 0 spine := by
-        simp only [epubLoop]
-        apply loopIdx_congr
-        intro r hr j
-        unfold epubPart
-        cases hp : chapterPath base manifest r with
-        | none => rfl
-        | some p =>
-          have m : p ∈ epubConsulted look x := by
-            simp only [epubConsulted, hC, hO, List.mem_cons, List.mem_filterMap]
-            exact Or.inr (Or.inr ⟨r, hr, hp⟩)
-          simp only [h _ m]
+        unfold epubLoop
+        apply epubLoopS_congr
+        intro p hp
+        have m : p ∈ epubConsulted look x := by
+          simp only [epubConsulted, hC, hO, List.mem_cons]
+          exact Or.inr (Or.inr hp)
+        exact h _ m
       simp only [hl]
 
 /-- EPUB: content documents that are not in the spine (whether or not the manifest
@@ -309,10 +330,12 @@ theorem count_is_declared_readable_pptx (a : Archive) (x : Docs) (declared : Lis
   rw [parts_follow_declaration_pptx a x declared h hne] at ho
   rw [eq_of_nonEmpty ho, length_filterMap_eq_countP]
 
+/-- EPUB (restated after c53b79e): the count is the number of readable entries of the
+spine with later repetitions of a resource removed -/
 theorem count_is_declared_readable_epub (a : Archive) (x : Docs) (base : Str) (manifest : List (Str × Str))
     (spine : List Str) (parts : List ChapterPart)
     (h : epubDeclared (lookup a) x = some (base, manifest, spine)) (ho : epubOpen a x = some parts) :
-    parts.length = spine.zipIdx.countP (fun e => (epubSpecPart a base manifest e).isSome) := by
+    parts.length = (spineFirsts base manifest spine).countP (fun e => (epubSpecPart a base manifest e).isSome) := by
   rw [parts_follow_declaration_epub a x base manifest spine h] at ho
   rw [eq_of_nonEmpty ho, length_filterMap_eq_countP]
 
@@ -335,18 +358,22 @@ theorem text_stays_in_its_page_pptx (a : Archive) (x : Docs) (declared : List St
   rw [parts_follow_declaration_pptx a x declared h hne] at ho
   rw [eq_of_nonEmpty ho, List.mem_filterMap]
 
+/-- EPUB (restated after c53b79e): a presented chapter is the content of a spine entry that
+lists its resource for the first time, and every such readable entry has its chapter
+(`epub_no_resource_twice`: and no resource has two) -/
 theorem text_stays_in_its_page_epub (a : Archive) (x : Docs) (base : Str) (manifest : List (Str × Str))
     (spine : List Str) (parts : List ChapterPart)
     (h : epubDeclared (lookup a) x = some (base, manifest, spine)) (ho : epubOpen a x = some parts)
     (p : ChapterPart) :
-    p ∈ parts ↔ ∃ e ∈ spine.zipIdx, epubSpecPart a base manifest e = some p := by
+    p ∈ parts ↔ ∃ e ∈ spineFirsts base manifest spine, epubSpecPart a base manifest e = some p := by
   rw [parts_follow_declaration_epub a x base manifest spine h] at ho
   rw [eq_of_nonEmpty ho, List.mem_filterMap]
 
 /-! ### the three formats together -/
 
 /-- **parts_follow_declaration** — for each format the presented part list is
-`declared.filterMap (lookup archive ∘ resolve)` (non-empty, else `Open` fails). -/
+`declared.filterMap (lookup archive ∘ resolve)` (non-empty, else `Open` fails); for EPUB
+`declared` is the spine with later repetitions of a resource removed (`spineFirsts`). -/
 theorem parts_follow_declaration (a : Archive) (x : Docs) :
     (∀ rels sheets, xlsxDeclared (lookup a) x = some (rels, sheets) →
       xlsxOpen a x = (let parts := sheets.zipIdx.filterMap (xlsxSpecPart a x rels)
@@ -355,7 +382,7 @@ theorem parts_follow_declaration (a : Archive) (x : Docs) :
       pptxOpen a x = (let parts := declared.zipIdx.filterMap (pptxSpecPart a x)
                       if parts = [] then none else some parts)) ∧
     (∀ base manifest spine, epubDeclared (lookup a) x = some (base, manifest, spine) →
-      epubOpen a x = (let parts := spine.zipIdx.filterMap (epubSpecPart a base manifest)
+      epubOpen a x = (let parts := (spineFirsts base manifest spine).filterMap (epubSpecPart a base manifest)
                       if parts = [] then none else some parts)) :=
   ⟨parts_follow_declaration_xlsx a x, parts_follow_declaration_pptx a x, parts_follow_declaration_epub a x⟩
 
@@ -381,7 +408,7 @@ theorem count_is_declared_readable (a : Archive) (x : Docs) :
       parts.length = declared.zipIdx.countP (fun e => (pptxSpecPart a x e).isSome)) ∧
     (∀ base manifest spine parts, epubDeclared (lookup a) x = some (base, manifest, spine) →
       epubOpen a x = some parts →
-      parts.length = spine.zipIdx.countP (fun e => (epubSpecPart a base manifest e).isSome)) :=
+      parts.length = (spineFirsts base manifest spine).countP (fun e => (epubSpecPart a base manifest e).isSome)) :=
   ⟨fun rels sheets parts => count_is_declared_readable_xlsx a x rels sheets parts,
    fun declared parts => count_is_declared_readable_pptx a x declared parts,
    fun base manifest spine parts => count_is_declared_readable_epub a x base manifest spine parts⟩
@@ -464,5 +491,245 @@ theorem epub_declared_order_example :
         else .opaque)
       = some [(0, 12, [79, 69, 66, 80, 83, 47, 99, 104, 47, 99, 43, 49, 46, 120, 104, 116, 109, 108], [105, 50]),
               (1, 11, [79, 69, 66, 80, 83, 47, 99, 49], [105, 49])] := by decide
+
+/-! ### EPUB: a resource listed several times in the spine is one chapter (c53b79e) -/
+
+/-- the specification list entry by entry: `(idref, k)` is followed iff it is the `k`-th
+spine entry, the manifest knows the idref, and no EARLIER spine entry resolves to the same
+archive name — a statement about the declaration only -/
+theorem mem_spineFirsts (base : Str) (manifest : List (Str × Str)) (spine : List Str) (e : Str × Nat) :
+    e ∈ spineFirsts base manifest spine ↔
+      spine[e.2]? = some e.1 ∧ ∃ p, chapterPath base manifest e.1 = some p ∧
+        ∀ j r, j < e.2 → spine[j]? = some r → chapterPath base manifest r ≠ some p := by
+  obtain ⟨r, k⟩ := e
+  unfold spineFirsts
+  rw [List.mem_filter, List.mk_mem_zipIdx_iff_getElem?]
+  have key : ∀ p, p ∈ (spine.take k).filterMap (chapterPath base manifest) ↔
+      ∃ j r', j < k ∧ spine[j]? = some r' ∧ chapterPath base manifest r' = some p := by
+    intro p
+    rw [List.mem_filterMap]
+    constructor
+    · intro ⟨r', hr', hp⟩
+      obtain ⟨j, hj⟩ := List.mem_iff_getElem?.mp hr'
+      rw [List.getElem?_take] at hj
+      split at hj
+      · exact ⟨j, r', by assumption, hj, hp⟩
+      · cases hj
+    · intro ⟨j, r', hjk, hj, hp⟩
+      refine ⟨r', List.mem_iff_getElem?.mpr ⟨j, ?_⟩, hp⟩
+      rw [List.getElem?_take, if_pos hjk]
+      exact hj
+  constructor
+  · intro ⟨hm, hf⟩
+    refine ⟨hm, ?_⟩
+    cases hcp : chapterPath base manifest r with
+    | none => simp [hcp] at hf
+    | some p =>
+      simp only [hcp, decide_eq_true_eq] at hf
+      refine ⟨p, rfl, ?_⟩
+      intro j r' hjk hj hp
+      exact hf ((key p).mpr ⟨j, r', hjk, hj, hp⟩)
+  · intro ⟨hm, p, hcp, hf⟩
+    refine ⟨hm, ?_⟩
+    simp only [hcp, decide_eq_true_eq]
+    intro hmem
+    obtain ⟨j, r', hjk, hj, hp⟩ := (key p).mp hmem
+    exact hf j r' hjk hj hp
+
+/-- **(a) epub_no_resource_twice** — for EVERY archive and parse table: the archive names
+of the presented chapters are pairwise distinct. No resource is a chapter twice, however
+often and in whatever spelling the spine lists it. -/
+theorem epub_no_resource_twice (a : Archive) (x : Docs) (parts : List ChapterPart)
+    (ho : epubOpen a x = some parts) : (parts.map fun c => c.2.2.1).Nodup := by
+  unfold epubOpen epubOpenL at ho
+  cases hd : epubDeclared (lookup a) x with
+  | none => simp [hd] at ho
+  | some d =>
+    obtain ⟨base, manifest, spine⟩ := d
+    simp only [hd] at ho
+    rw [eq_of_nonEmpty ho]
+    exact (epubLoopS_paths (lookup a) base manifest [] 0 spine).2
+
+/-- the same as a statement about pairs of chapters -/
+theorem epub_no_resource_twice_pairwise (a : Archive) (x : Docs) (parts : List ChapterPart)
+    (ho : epubOpen a x = some parts) : parts.Pairwise (fun c d => c.2.2.1 ≠ d.2.2.1) := by
+  have := epub_no_resource_twice a x parts ho
+  rw [List.Nodup, List.pairwise_map] at this
+  exact this
+
+/-- **(b) epub_unrepeated_spine_as_before** — when the spine lists no resource twice (the
+resolved hrefs of its entries are pairwise distinct: every valid EPUB, EPUB 3 §3.4.13), the
+loop of `loadChapters` is exactly the loop before the fix. -/
+theorem epub_unrepeated_spine_as_before (look : Str → Option Nat) (base : Str) (manifest : List (Str × Str))
+    (spine : List Str) (hnd : (spineHrefs base manifest spine).Nodup) :
+    epubLoop look base manifest 0 spine = loopIdx (epubPart look base manifest) 0 spine :=
+  epubLoopS_eq_loopIdx look base manifest [] 0 spine hnd (fun _ _ h => by cases h)
+
+/-- hence, for such a spine, `parts_follow_declaration_epub` holds VERBATIM as it was
+stated before the fix: the presented list is the whole spine in its own order, each
+entry resolved and looked up, unreadable entries dropped -/
+theorem parts_follow_declaration_epub_valid (a : Archive) (x : Docs) (base : Str) (manifest : List (Str × Str))
+    (spine : List Str) (h : epubDeclared (lookup a) x = some (base, manifest, spine))
+    (hnd : (spineHrefs base manifest spine).Nodup) :
+    epubOpen a x =
+      (let parts := spine.zipIdx.filterMap (epubSpecPart a base manifest)
+       if parts = [] then none else some parts) := by
+  unfold epubOpen epubOpenL
+  rw [h]
+  simp only [epub_unrepeated_spine_as_before _ _ _ _ hnd, loopIdx_eq_filterMap, epubPart_eq_spec]
+
+/-- … and so do the count and the page statements, verbatim -/
+theorem count_is_declared_readable_epub_valid (a : Archive) (x : Docs) (base : Str) (manifest : List (Str × Str))
+    (spine : List Str) (parts : List ChapterPart)
+    (h : epubDeclared (lookup a) x = some (base, manifest, spine))
+    (hnd : (spineHrefs base manifest spine).Nodup) (ho : epubOpen a x = some parts) :
+    parts.length = spine.zipIdx.countP (fun e => (epubSpecPart a base manifest e).isSome) := by
+  rw [parts_follow_declaration_epub_valid a x base manifest spine h hnd] at ho
+  rw [eq_of_nonEmpty ho, length_filterMap_eq_countP]
+
+theorem text_stays_in_its_page_epub_valid (a : Archive) (x : Docs) (base : Str) (manifest : List (Str × Str))
+    (spine : List Str) (parts : List ChapterPart)
+    (h : epubDeclared (lookup a) x = some (base, manifest, spine))
+    (hnd : (spineHrefs base manifest spine).Nodup) (ho : epubOpen a x = some parts) (p : ChapterPart) :
+    p ∈ parts ↔ ∃ e ∈ spine.zipIdx, epubSpecPart a base manifest e = some p := by
+  rw [parts_follow_declaration_epub_valid a x base manifest spine h hnd] at ho
+  rw [eq_of_nonEmpty ho, List.mem_filterMap]
+
+/-- for such a spine the specification list is the whole spine (entries the manifest does
+not know aside: they are never chapters) -/
+theorem spineFirsts_of_unrepeated (base : Str) (manifest : List (Str × Str)) (spine : List Str)
+    (hnd : (spineHrefs base manifest spine).Nodup) :
+    spineFirsts base manifest spine =
+      spine.zipIdx.filter (fun e => (chapterPath base manifest e.1).isSome) := by
+  have h1 := firstsFrom_eq_filter (chapterPath base manifest) [] 0 spine
+  have h2 : ∀ (seen : List Str) (i : Nat) (l : List Str),
+      (l.filterMap (chapterPath base manifest)).Nodup →
+      (∀ q ∈ l.filterMap (chapterPath base manifest), q ∉ seen) →
+      firstsFrom (chapterPath base manifest) seen (l.zipIdx i) =
+        (l.zipIdx i).filter (fun e => (chapterPath base manifest e.1).isSome) := by
+    intro seen i l
+    induction l generalizing seen i with
+    | nil => intros; rfl
+    | cons r rest ih =>
+      intro hn hd
+      simp only [List.zipIdx_cons, firstsFrom, List.filter_cons]
+      cases hcp : chapterPath base manifest r with
+      | none =>
+        simp only [List.filterMap_cons, hcp] at hn hd
+        simpa using ih seen (i + 1) hn hd
+      | some p =>
+        simp only [List.filterMap_cons, hcp, List.nodup_cons] at hn hd
+        have hs : p ∉ seen := hd p List.mem_cons_self
+        have hd' : ∀ q ∈ rest.filterMap (chapterPath base manifest), q ∉ p :: seen := by
+          intro q hq hmem
+          rcases List.mem_cons.mp hmem with e | hmem
+          · subst e
+            exact hn.1 hq
+          · exact hd q (List.mem_cons_of_mem _ hq) hmem
+        simp only [hs, if_false, Option.isSome_some, if_true, ih (p :: seen) (i + 1) hn.2 hd']
+  have h3 := h2 [] 0 spine hnd (fun _ _ h => by cases h)
+  rw [← h3, h1]
+  unfold spineFirsts
+  apply List.filter_congr
+  intro e _
+  cases chapterPath base manifest e.1 with
+  | none => rfl
+  | some p => simp
+
+/-- **(c) epub_chapter_count_bounded** — bounded output (the C02-relevant fact): the number
+of chapters is at most the number of DISTINCT resolved hrefs of the spine, at most the
+number of archive members, and at most the number of spine entries — whatever the
+declaration repeats. -/
+theorem epub_chapter_count_bounded (a : Archive) (x : Docs) (base : Str) (manifest : List (Str × Str))
+    (spine : List Str) (parts : List ChapterPart)
+    (h : epubDeclared (lookup a) x = some (base, manifest, spine)) (ho : epubOpen a x = some parts) :
+    parts.length ≤ (spineHrefs base manifest spine).eraseDups.length ∧
+      parts.length ≤ a.length ∧ parts.length ≤ spine.length := by
+  have hnd := epub_no_resource_twice a x parts ho
+  unfold epubOpen epubOpenL at ho
+  simp only [h] at ho
+  have hp := eq_of_nonEmpty ho
+  have hpaths := (epubLoopS_paths (lookup a) base manifest [] 0 spine).1
+  have hfound := epubLoopS_found (lookup a) base manifest [] 0 spine
+  rw [← epubLoop, ← hp] at hpaths hfound
+  refine ⟨?_, ?_, ?_⟩
+  · have := hnd.length_le_of_subset (l₂ := (spineHrefs base manifest spine).eraseDups)
+      (fun q hq => List.mem_eraseDups.mpr (hpaths q hq).2)
+    simpa using this
+  · have := hnd.length_le_of_subset (l₂ := a.map Prod.fst) (by
+      intro q hq
+      obtain ⟨c, hc, rfl⟩ := List.mem_map.mp hq
+      exact List.mem_map.mpr ⟨(c.2.2.1, c.2.1), lookup_mem (hfound c hc), rfl⟩)
+    simpa using this
+  · rw [hp, epubLoop_eq_spineFirsts]
+    refine Nat.le_trans (List.length_filterMap_le _ _) ?_
+    unfold spineFirsts
+    refine Nat.le_trans (List.length_filter_le _ _) ?_
+    simp
+
+/-- the general form: at most one chapter per element of ANY list of names that covers the
+resolved hrefs of the spine -/
+theorem epub_chapter_count_le_cover (a : Archive) (x : Docs) (base : Str) (manifest : List (Str × Str))
+    (spine : List Str) (parts : List ChapterPart) (names : List Str)
+    (h : epubDeclared (lookup a) x = some (base, manifest, spine)) (ho : epubOpen a x = some parts)
+    (hc : ∀ p ∈ spineHrefs base manifest spine, p ∈ names) : parts.length ≤ names.length := by
+  have hnd := epub_no_resource_twice a x parts ho
+  unfold epubOpen epubOpenL at ho
+  simp only [h] at ho
+  have hp := eq_of_nonEmpty ho
+  have hpaths := (epubLoopS_paths (lookup a) base manifest [] 0 spine).1
+  rw [← epubLoop, ← hp] at hpaths
+  have := hnd.length_le_of_subset (l₂ := names) (fun q hq => hc q (hpaths q hq).2)
+  simpa using this
+
+/-- a package whose spine reaches resources several times, in all three ways: package
+document `content.opf` in the root; manifest `i1 ↦ c1`, `i2 ↦ ./c1`, `i3 ↦ x/../c%31`
+(three spellings of the member `c1`), `i4 ↦ c2`, `i5 ↦ gone`, `i6 ↦ ./gone` (no such
+member); spine `[i1, i4, i2, i1, i5, i3, i6, i4]` -/
+def exRArchive : Archive :=
+  [([99, 50], 12), (sContainer, 1), ([99, 111, 110, 116, 101, 110, 116, 46, 111, 112, 102], 2), ([99, 49], 11)]
+
+def exRManifest : List (Str × Str) :=
+  [([105, 49], [99, 49]), ([105, 50], [46, 47, 99, 49]), ([105, 51], [120, 47, 46, 46, 47, 99, 37, 51, 49]),
+   ([105, 52], [99, 50]), ([105, 53], [103, 111, 110, 101]), ([105, 54], [46, 47, 103, 111, 110, 101])]
+
+def exRSpine : List Str := [[105, 49], [105, 52], [105, 50], [105, 49], [105, 53], [105, 51], [105, 54], [105, 52]]
+
+def exRDocs : Docs := fun c =>
+  if c = 1 then .container [([99, 111, 110, 116, 101, 110, 116, 46, 111, 112, 102], sOebps)]
+  else if c = 2 then .opf exRManifest exRSpine
+  else .opaque
+
+/-- each resource once, at its first position: `c1` (spine position 0) and `c2` (position
+1); the repetitions at positions 2, 3, 5, 7 are not chapters, and neither is the second
+reference (position 6) to the missing `gone` (position 4) -/
+theorem epub_repeated_resources_example :
+    epubOpen exRArchive exRDocs = some [(0, 11, [99, 49], [105, 49]), (1, 12, [99, 50], [105, 52])] := by decide
+
+theorem epub_repeated_resources_spec_example :
+    spineFirsts [] exRManifest exRSpine = [([105, 49], 0), ([105, 52], 1), ([105, 53], 4)] ∧
+      (spineHrefs [] exRManifest exRSpine).eraseDups = [[99, 49], [99, 50], [103, 111, 110, 101]] := by decide
+
+/-- before the fix the same package had six chapters (the old loop) -/
+theorem epub_repeated_resources_before_fix_example :
+    (loopIdx (epubPart (lookup exRArchive) [] exRManifest) 0 exRSpine).map (fun c => (c.1, c.2.1))
+      = [(0, 11), (1, 12), (2, 11), (3, 11), (5, 11), (7, 12)] := by decide
+
+/-- satisfiability of the hypotheses of (a) and (c): the package above opens and is declared -/
+example : (epubOpen exRArchive exRDocs).isSome ∧
+    epubDeclared (lookup exRArchive) exRDocs = some ([], exRManifest, exRSpine) := by decide
+
+/-- satisfiability of the hypothesis of (b): the spine `[i2, i1]` of
+`epub_declared_order_example` lists two different resources -/
+example : (spineHrefs [79, 69, 66, 80, 83]
+    [([105, 49], [99, 49]), ([105, 50], [99, 104, 47, 99, 43, 49, 46, 120, 104, 116, 109, 108]), ([105, 51], [99, 50])]
+    [[105, 50], [105, 49]]).Nodup := by decide
+
+/-- … and the spine of `exRDocs` does not satisfy it -/
+example : ¬ (spineHrefs [] exRManifest exRSpine).Nodup := by decide
+
+/-- satisfiability of `mem_spineFirsts`: `(i5, 4)` is followed, `(i3, 5)` is not -/
+example : (([105, 53], 4) : Str × Nat) ∈ spineFirsts [] exRManifest exRSpine ∧
+    (([105, 51], 5) : Str × Nat) ∉ spineFirsts [] exRManifest exRSpine := by decide
 
 end Tabula.C18
